@@ -152,6 +152,87 @@ out:
     free(cr.chainPem); free(cr.keyPem); free(cr.caPem);
 }
 
+
+/* ================================================================ keyless attacker vs. client session-cache states ====
+ * The attacker holds no certificate key, no PSK and no session secret.  It answers the victim's ClientHello with a ServerHello
+ * of its own (echoing / replacing / omitting the session id, with or without an empty session_ticket extension), then
+ * ChangeCipherSpec and a Finished computed from publicly computable values only: master secret := 48 zero octets, the two
+ * hello randoms and the hello bytes as seen on the wire (TLS 1.2 PRF and AES-128-GCM via libcrypto).  Whatever the client
+ * has cached (nothing, a session id, a ticket, a session id next to a stale ticket), it must never report completion. */
+#include <openssl/evp.h>
+#include <openssl/kdf.h>
+#include <openssl/core_names.h>
+#include <openssl/sha.h>
+static int tls12_prf(const unsigned char *secret, int sl, const char *label, const unsigned char *seed, int seedl, unsigned char *out, int outl)
+{
+    EVP_KDF *kdf = EVP_KDF_fetch(NULL, "TLS1-PRF", NULL); if (!kdf) return -1; EVP_KDF_CTX *kc = EVP_KDF_CTX_new(kdf); EVP_KDF_free(kdf);
+    OSSL_PARAM pr[5]; pr[0] = OSSL_PARAM_construct_utf8_string(OSSL_KDF_PARAM_DIGEST, "SHA256", 0); pr[1] = OSSL_PARAM_construct_octet_string(OSSL_KDF_PARAM_SECRET, (void *) secret, sl);
+    pr[2] = OSSL_PARAM_construct_octet_string(OSSL_KDF_PARAM_SEED, (void *) label, strlen(label)); pr[3] = OSSL_PARAM_construct_octet_string(OSSL_KDF_PARAM_SEED, (void *) seed, seedl); pr[4] = OSSL_PARAM_construct_end();
+    int rc = EVP_KDF_derive(kc, out, outl, pr) > 0 ? 0 : -1; EVP_KDF_CTX_free(kc); return rc;
+}
+enum { ST_FRESH = 0, ST_ID, ST_TICKET, ST_ID_STALE_TICKET, ST_N };
+static const char *stname[] = { "fresh", "session-id", "ticket", "id+stale-ticket" };
+enum { SI_ECHO = 0, SI_DIFFERENT, SI_EMPTY, SI_N };
+static const char *siname[] = { "echo-id", "different-id", "empty-id" };
+typedef struct { int st, si, ext; } kcase_t;
+static sslKeys_t *kl_noticket;
+static int kl_prime(sslSessionId_t *sid, int st)
+{
+    mx_cfg c1 = { .ver = MX_TLS12, .suite = 0x009c, .useTicket = st == ST_TICKET || st == ST_ID_STALE_TICKET }; mx_conn k;
+    if (st == ST_FRESH) return 0;
+    if (st == ST_ID) c1.skeys = kl_noticket;
+    if (mx_conn_open(&k, &c1, sid) != 0) return -1; mx_conn_run(&k, NULL, NULL, 300); int ok = mx_conn_established(&k); mx_conn_close(&k); if (!ok) return -1;
+    if (st == ST_ID_STALE_TICKET) {   /* the same client now meets a server without ticket keys: full handshake, session id issued, the old ticket stays in the client's cache entry */
+        mx_cfg c2 = c1; c2.skeys = kl_noticket; if (mx_conn_open(&k, &c2, sid) != 0) return -1; mx_conn_run(&k, NULL, NULL, 300); ok = mx_conn_established(&k); mx_conn_close(&k); if (!ok) return -1;
+    }
+    return 0;
+}
+static void run_keyless(void *a_)
+{
+    kcase_t *kc = a_; vf_stat("cases", 1); vf_stat("keyless_attacker_cases", 1);
+    sslSessionId_t *sid; matrixSslNewSessionId(&sid, NULL);
+    if (kl_prime(sid, kc->st) != 0) { vf_incon("keyless: priming of client state %s failed", stname[kc->st]); return; }
+    if ((kc->st == ST_ID || kc->st == ST_ID_STALE_TICKET) && sid->idLen == 0) { vf_incon("keyless: client state %s holds no session id", stname[kc->st]); return; }
+    if ((kc->st == ST_TICKET || kc->st == ST_ID_STALE_TICKET) && sid->sessionTicketLen == 0) { vf_incon("keyless: client state %s holds no ticket", stname[kc->st]); return; }
+    mx_cfg cfg = { .ver = MX_TLS12, .suite = 0x009c, .useTicket = 1 }; mx_ep C; if (mx_new_client(&C, &cfg, sid) < 0) { vf_incon("keyless: client session"); return; }
+    unsigned char *ch; int chl = mx_take(&C, &ch); if (chl < 5 + 4 + 2 + 32 + 1) { vf_incon("keyless: no ClientHello"); return; }
+    const unsigned char *chb = ch + 5; int chbl = chl - 5;                      /* handshake message incl. its 4-byte header */
+    const unsigned char *crand = chb + 4 + 2; int cidl = chb[4 + 2 + 32]; const unsigned char *cid = chb + 4 + 2 + 32 + 1;
+    vf_distinct("keyless|%s|%s|%d|chid%d", stname[kc->st], siname[kc->si], kc->ext, cidl > 0);
+    /* ServerHello */
+    unsigned char sh[5 + 4 + 2 + 32 + 1 + 32 + 3 + 2 + 4], srand_[32]; int o = 5 + 4;
+    for (int i = 0; i < 32; i++) srand_[i] = (unsigned char) (0xA0 + i);
+    sh[o++] = 3; sh[o++] = 3; memcpy(sh + o, srand_, 32); o += 32;
+    if (kc->si == SI_ECHO && cidl > 0) { sh[o++] = (unsigned char) cidl; memcpy(sh + o, cid, cidl); o += cidl; }
+    else if (kc->si == SI_EMPTY) sh[o++] = 0;
+    else { sh[o++] = 32; memset(sh + o, 0x11, 32); o += 32; }
+    sh[o++] = 0x00; sh[o++] = 0x9c; sh[o++] = 0;
+    if (kc->ext) { sh[o++] = 0; sh[o++] = 4; sh[o++] = 0; sh[o++] = 35; sh[o++] = 0; sh[o++] = 0; }
+    int shbl = o - 5; sh[0] = 22; sh[1] = 3; sh[2] = 3; sh[3] = shbl >> 8; sh[4] = shbl; sh[5] = 2; sh[6] = 0; sh[7] = (shbl - 4) >> 8; sh[8] = (shbl - 4);
+    mx_feed(&C, sh, o);
+    unsigned char ccs[6] = { 20, 3, 3, 0, 1, 1 }; if (!C.dead) mx_feed(&C, ccs, 6);
+    /* keys and Finished from public values: master secret = 0^48 */
+    unsigned char ms[48], seed[64], kb[40], hh[32], fin[16], vd[12]; memset(ms, 0, 48);
+    memcpy(seed, srand_, 32); memcpy(seed + 32, crand, 32);
+    SHA256_CTX hx; SHA256_Init(&hx); SHA256_Update(&hx, chb, chbl); SHA256_Update(&hx, sh + 5, shbl); SHA256_Final(hh, &hx);
+    if (tls12_prf(ms, 48, "key expansion", seed, 64, kb, 40) || tls12_prf(ms, 48, "server finished", hh, 32, vd, 12)) { vf_incon("keyless: TLS1-PRF unavailable"); return; }
+    const unsigned char *swk = kb + 16, *swiv = kb + 36;                        /* client_write_key | server_write_key | client_iv(4) | server_iv(4) */
+    fin[0] = 20; fin[1] = 0; fin[2] = 0; fin[3] = 12; memcpy(fin + 4, vd, 12);
+    unsigned char rec[5 + 8 + 16 + 16], nonce[12], aad[13]; int l = 0, l2 = 0; memset(aad, 0, 8); aad[8] = 22; aad[9] = 3; aad[10] = 3; aad[11] = 0; aad[12] = 16;
+    memcpy(nonce, swiv, 4); memset(nonce + 4, 0, 8); rec[0] = 22; rec[1] = 3; rec[2] = 3; rec[3] = 0; rec[4] = 8 + 16 + 16; memset(rec + 5, 0, 8);
+    EVP_CIPHER_CTX *x = EVP_CIPHER_CTX_new(); EVP_EncryptInit_ex(x, EVP_aes_128_gcm(), NULL, NULL, NULL); EVP_CIPHER_CTX_ctrl(x, EVP_CTRL_AEAD_SET_IVLEN, 12, NULL); EVP_EncryptInit_ex(x, NULL, NULL, swk, nonce);
+    EVP_EncryptUpdate(x, NULL, &l, aad, 13); EVP_EncryptUpdate(x, rec + 13, &l, fin, 16); EVP_EncryptFinal_ex(x, rec + 13 + l, &l2); EVP_CIPHER_CTX_ctrl(x, EVP_CTRL_AEAD_GET_TAG, 16, rec + 13 + 16); EVP_CIPHER_CTX_free(x);
+    if (!C.dead) mx_feed(&C, rec, sizeof rec);
+    int done = !C.dead && C.ssl && matrixSslHandshakeIsComplete(C.ssl);
+    vf_statf(1, "keyless_%s_%s_ext%d_%s", stname[kc->st], siname[kc->si], kc->ext, done ? "COMPLETE" : "refused");
+    if (done || C.gotlen > 0) {
+        char key[200]; snprintf(key, sizeof key, "c04:completed-with-keyless-attacker:%s:%s:%s", stname[kc->st], siname[kc->si], kc->ext ? "ticket-ext" : "no-ext");
+        vf_violation(key, cur_desc, "a client with cached state '%s' reports a completed handshake (resumed=%d) with a peer that holds no key at all: ServerHello(%s%s), ChangeCipherSpec, Finished under an all-zero master secret",
+                     stname[kc->st], !!(C.ssl->flags & SSL_FLAGS_RESUMED), siname[kc->si], kc->ext ? ", empty session_ticket extension" : "");
+    } else vf_stat("keyless_attacker_refused", 1);
+    free(ch); mx_ep_free(&C); matrixSslDeleteSessionId(sid);
+}
+
 int main(int argc, char **argv)
 {
     vf_init(argc, argv); mx_global_init();
@@ -169,6 +250,18 @@ int main(int argc, char **argv)
         if (idx % 97 == 0) vf_sample("%s", cur_desc);
         mx_entropy_seed(vf_seed * 31 + idx);
         vf_fork_case(run_case, &c, "c04", cur_desc, 120);
+    }
+    /* keyless attacker x client cache states */
+    mx_keys_load();
+    MX_ENTER(); matrixSslNewKeys(&kl_noticket, NULL); int lr = matrixSslLoadRsaKeys(kl_noticket, MX_TK "RSA/2048_RSA.pem", MX_TK "RSA/2048_RSA_KEY.pem", NULL, NULL); MX_LEAVE();
+    if (lr < 0) { fprintf(stderr, "HARNESS: cannot load ticket-less server keys\n"); return 2; }
+    for (int st = 0; st < ST_N; st++) for (int si = 0; si < SI_N; si++) for (int ext = 0; ext < 2; ext++) {
+        if (!vf_mine(idx++)) continue;
+        kcase_t kc = { st, si, ext };
+        snprintf(cur_desc, sizeof cur_desc, "keyless state=%s sid=%s ext=%d", stname[st], siname[si], ext);
+        if (vf_case && strcmp(vf_case, cur_desc)) continue;
+        mx_entropy_seed(vf_seed * 37 + idx);
+        vf_fork_case(run_keyless, &kc, "c04", cur_desc, 120);
     }
     matrixSslClose(); vf_flush();
     return 0;
